@@ -14,7 +14,7 @@ def run(ctx):
     qs.append(Query('roundtrip', L, os.path.join(H, 'h_roundtrip.c'), unwind=70, timeout=900,
                     desc='fromString(getFullString(h))==h, all 2^256 values'))
     qs.append(Query('ops', L, os.path.join(H, 'h_ops.c'), unwind=10, timeout=900, desc='==,!=,<,^ on all pairs of hashes'))
-    modes = range(7) if thorough else (0, 1, 2, 3, 4, 6)
+    modes = range(10) if thorough else (0, 1, 2, 3, 4, 6, 7, 8)
     for m in modes:
         d = ['MODE=%d' % m]
         if 'zero-short' in known:
